@@ -164,7 +164,8 @@ def run_shards(pid, shards, tier, seed, jobs, timeout):
                 out = os.path.join(tmpd, f"s{i}.json")
                 log = open(os.path.join(tmpd, f"s{i}.log"), "w")
                 p = subprocess.Popen(
-                    [PY, "-m", "jtv.shard", pid, json.dumps(sh), tier, str(seed), out],
+                    # shard["python_flags"]: interpreter options of the process that runs the shard (e.g. ["-O"])
+                    [PY, *sh.get("python_flags", []), "-m", "jtv.shard", pid, json.dumps(sh), tier, str(seed), out],
                     cwd=ROOT,
                     env=env,
                     stdout=log,
